@@ -211,6 +211,32 @@ where
     }
 }
 
+/// Verification harness: drives the crate-private `execute` with synthetic executions.
+#[cfg(scylla_verif)]
+#[allow(missing_docs, unreachable_pub)]
+pub mod verif_hooks {
+    use super::*;
+
+    pub async fn execute<QueryFut, T>(
+        max_retry_count: usize,
+        retry_interval: Duration,
+        query_runner_generator: impl FnMut(bool) -> QueryFut,
+    ) -> Result<T, RequestError>
+    where
+        QueryFut: Future<Output = Option<Result<T, RequestError>>>,
+    {
+        let policy = SimpleSpeculativeExecutionPolicy {
+            max_retry_count,
+            retry_interval,
+        };
+        let context = Context {
+            #[cfg(feature = "metrics")]
+            metrics: Arc::new(Metrics::new()),
+        };
+        super::execute(&policy, &context, query_runner_generator).await
+    }
+}
+
 #[cfg(test)]
 mod tests {
     // Important to start tests with paused clock. If starting unpaused, and calling `tokio::time::pause()`, then
